@@ -176,7 +176,7 @@ Definition access_of (ty : bytes) : N :=
                           else if c =? 112 then AllowPresence else if c =? 101 then AllowExtend
                           else if c =? 120 then AllowExecute else 0)) ty 0.
 
-Inductive gerr := GUnauthorized | GNotFound | GTargetInvalid | GTargetTooLong | GBadRequest.
+Inductive gerr := GUnauthorized | GNotFound | GTargetInvalid | GTargetTooLong | GBadRequest | GOther.
 
 (* CreateKey: the salt is random (an input here); [expires] is the unix time handed to SetExpires *)
 Definition create_key (decrypt : bytes -> res kerr key) (contracts : N -> option contract) (now : Z)
@@ -201,6 +201,51 @@ Definition create_key (decrypt : bytes -> res kerr key) (contracts : N -> option
              | Panic => Panic
              end
          end
+  | _ => Err GUnauthorized
+  end.
+(* ExtendKey: a private-link key for the sub-channel named after the connection *)
+Definition hash_slash : bytes := [35; 47].    (* "#/" *)
+Definition has_suffix (s suf : bytes) : bool :=
+  (len suf <=? len s) && bytes_eqb (drop (len s - len suf) s) suf.
+
+Definition extend_key (banned : bytes -> bool) (decrypt : bytes -> res kerr key)
+           (contracts : N -> option contract) (now : Z)
+           (channel_key channel_name conn_id : bytes) (access : N) (expires : Z) : res gerr (key * bytes) :=
+  let wild := has_suffix channel_name hash_slash in
+  let name := if wild then take (len channel_name - 2) channel_name else channel_name in
+  let suffix := if wild then hash_slash else [] in
+  let ch := parse_channel (channel_key ++ sep :: name) in
+  if negb (c_type ch =? ChannelStatic) then Err GBadRequest
+  else match authorize banned decrypt contracts now ch AllowExtend with
+       | None => Err GUnauthorized
+       | Some k =>
+         let perms := N.land (N.land (key_perms k) (255 - AllowExtend)) access in
+         let k1 := set_bytes k 15 [perms] in
+         let k2 := set_bytes k1 20 (be32 (expiry_field_of expires)) in
+         let target := c_chan ch ++ conn_id ++ sep :: suffix in
+         match set_target k2 target with
+         | Ok k3 => Ok (k3, target)
+         | Err _ => Err GOther
+         | Panic => Panic
+         end
+       end.
+
+(* keygen.Service.OnRequest after JSON decoding *)
+Definition keygen_request (banned : bytes -> bool) (decrypt : bytes -> res kerr key)
+           (contracts : N -> option contract) (now : Z)
+           (raw_key channel ty conn_id : bytes) (expires : Z) (salt : N) : res gerr (key * bytes) :=
+  match decrypt raw_key with
+  | Ok pk =>
+    if is_expired pk now then Err GUnauthorized
+    else if is_master pk then
+      match create_key decrypt contracts now raw_key channel (access_of ty) expires salt with
+      | Ok k => Ok (k, channel)
+      | Err e => Err e
+      | Panic => Panic
+      end
+    else if has_permission pk AllowExtend then
+      extend_key banned decrypt contracts now raw_key channel conn_id (access_of ty) expires
+    else Err GUnauthorized
   | _ => Err GUnauthorized
   end.
 End hashed.
